@@ -111,3 +111,28 @@ W.lemma(
     goal="after_line(p + '\\n' + rest) == rest and after_line(p) == ''",
     props=["C03"],
 )
+
+# ---- C18 / C05: what the specification says about the text of name and number tokens
+W.lemma(
+    "variable_token_is_letters",
+    vars=dict(r=STR),
+    goal="span_letters(r) >= 0 and only_chars(r[:span_letters(r)], LETTERS)",
+    ih=[dict(at=dict(r="r[1:]"), measure="len(r)", when="len(r) > 0 and r[0] in LETTERS")],
+    hints=["unfold(span_letters(r))", "unfold(only_chars(r[:span_letters(r)], LETTERS))", "unfold(only_chars(r[:0], LETTERS))"],
+    asserts=["implies(len(r) > 0 and span_letters(r[1:]) >= 0, r[:1 + span_letters(r[1:])][1:] == r[1:][:span_letters(r[1:])])"],
+    fuel=0,
+    props=["C18"],
+    note="the value of a VARIABLE_GET / VARIABLE_SET token (r[:var_len(r)]) consists of ASCII letters and underscores only",
+)
+
+W.lemma(
+    "number_token_is_digits",
+    vars=dict(v=STR, r=STR),
+    goal="num_len(v, r) >= 0 and only_chars(r[:num_len(v, r)], DIGITS)",
+    ih=[dict(at=dict(v="v + r[0]", r="r[1:]"), measure="len(r)", when="len(r) > 0 and r[0] in DIGITS and numok(v + r[0])")],
+    hints=["unfold(num_len(v, r))", "unfold(only_chars(r[:num_len(v, r)], DIGITS))", "unfold(only_chars(r[:0], DIGITS))"],
+    asserts=["implies(len(r) > 0 and num_len(v + r[0], r[1:]) >= 0, r[:1 + num_len(v + r[0], r[1:])][1:] == r[1:][:num_len(v + r[0], r[1:])])"],
+    fuel=0,
+    props=["C18", "C05"],
+    note="the text of a NUMBER token after its first character consists of digits, '.' and '°' only",
+)
